@@ -370,28 +370,37 @@ theorem writeCheck_ok_iff (std : Std) (lim : Nat) (m : Model) (t : Tuple) (hwf :
     writeCheck std lim m t = .ok () ↔ acceptedByWrite std lim m t = true := by
   unfold acceptedByWrite
   rw [allowedWith_split]
+  simp only [Bool.and_eq_true, decide_eq_true_eq, bne_iff_ne, ne_eq]
   unfold writeCheck
-  simp only [bind_ok_iff, Bool.and_eq_true, decide_eq_true_eq, bne_iff_ne, ne_eq]
   constructor
-  · rintro ⟨hw, hi, hs⟩
-    have hcore := (forWrite_iff_core std m t hwf).mp hw
-    have hctx := (contextual_iff_core std m t).mpr hcore
-    have himp := isImplicit_eq std m t hcore
-    refine ⟨⟨hctx, ?_⟩, ?_⟩
-    · intro e
-      have : isImplicit t = true := by rw [himp]; simpa using e
-      simp [this] at hi
-    · by_cases hsz : ctxSize t > lim
-      · simp [hsz] at hs
-      · omega
+  · intro h
+    cases hw : validateForWrite std m t with
+    | error e => rw [hw] at h; simp at h
+    | ok u =>
+      cases u
+      rw [hw] at h
+      dsimp only at h
+      have hcore := (forWrite_iff_core std m t hwf).mp hw
+      have hctx := (contextual_iff_core std m t).mpr hcore
+      have himp := isImplicit_eq std m t hcore
+      cases hi : isImplicit t with
+      | true => rw [hi] at h; simp at h
+      | false =>
+        rw [hi] at h
+        by_cases hsz : ctxSize t > lim
+        · simp [hsz] at h
+        · refine ⟨⟨hctx, ?_⟩, by omega⟩
+          intro e
+          rw [himp] at hi
+          simp [e] at hi
   · rintro ⟨⟨hctx, hne⟩, hsz⟩
     have hcore := (contextual_iff_core std m t).mp hctx
     have himp := isImplicit_eq std m t hcore
     have hi : isImplicit t = false := by
       rw [himp]; exact beq_false_of_ne hne
-    refine ⟨(forWrite_iff_core std m t hwf).mpr hcore, by simp [hi], ?_⟩
+    rw [(forWrite_iff_core std m t hwf).mpr hcore]
     have : ¬ ctxSize t > lim := by omega
-    simp [this]
+    simp [hi, this]
 
 /-! ### strict versus loose -/
 
@@ -414,17 +423,29 @@ theorem userMatches_compat (r : Restr) (u : Bytes) (h : userMatches r u = true) 
      | .rel x => x == [] || x == userRelOf u) = true := by
   unfold userMatches at h
   unfold isStar userRelOf
-  cases hk : r.kind <;> rw [hk] at h <;> simp only [Bool.and_eq_true] at h <;>
-    (cases ht : typed u with
-     | none => rw [ht] at h; simp at h
-     | some p =>
-       obtain ⟨a, b⟩ := p; rw [ht] at h; simp only [Bool.and_eq_true, beq_iff_eq, bne_iff_ne, ne_eq] at h
-       dsimp only)
-  · simpa using h.2.2
-  · simpa using h.2.2
-  · cases hs : splitFirst 35 b with
-    | none => rw [hs] at h; simp at h
-    | some q => obtain ⟨c, d⟩ := q; rw [hs] at h; simp only [beq_iff_eq] at h; simp [h.2.2]
+  cases ht : typed u with
+  | none => cases hk : r.kind <;> rw [hk, ht] at h <;> simp at h
+  | some p =>
+    obtain ⟨a, b⟩ := p
+    cases hk : r.kind with
+    | obj =>
+      rw [hk, ht] at h
+      simp only [Bool.and_eq_true, bne_iff_ne, ne_eq] at h
+      simp [h.2.2]
+    | wild =>
+      rw [hk, ht] at h
+      simp only [Bool.and_eq_true, beq_iff_eq] at h
+      simp [h.2.2]
+    | rel x =>
+      rw [hk, ht] at h
+      simp only [Bool.and_eq_true] at h
+      cases hs : splitFirst 35 b with
+      | none => rw [hs] at h; simp at h
+      | some q =>
+        obtain ⟨c, d⟩ := q
+        rw [hs] at h
+        simp only [beq_iff_eq] at h
+        simp [hs, h.2.2]
 
 theorem strict_imp_loose (rd : RelDef) (t : Tuple) (h : restrStrict rd t = true) : restrLoose rd t = true := by
   unfold restrStrict at h
